@@ -369,6 +369,17 @@ def rule_codec(rep: Report, repo: Repo) -> None:
                     and not (isinstance(c.func.value, ast.Name) and c.func.value.id in ('base64', 'json', 'zlib')):
                 rep.check(_codec_ok(c, repo, rel), 'C17.CODEC', f'{rel.split("/")[-1]}:{norm(c)[:60]}', f'codec argument of `{norm(c)[:80]}`',
                           f'{rel}:{c.lineno}', expected='IO_BYTES_ENCODING (a missing argument means utf-8)')
+    # input side: a byte read through the TEXT layer of stdin was decoded with the locale's codec first (utf-8: the two bytes c3 a9 arrive
+    # as the one character U+00E9; a lone byte >= 0x80 arrives as a surrogate escape or raises) - re-encoding one character with the
+    # byte-transparent codec cannot bring the bytes back. Exact input needs the binary layer (stdin.buffer) or a stream opened with the codec.
+    for rel in rels:
+        if not repo.exists(rel):
+            continue
+        for c in ast.walk(repo.mod(rel)):
+            if isinstance(c, ast.Call) and dotted(c.func) in ('stdin.read', 'sys.stdin.read', 'stdin.readline', 'sys.stdin.readline', 'input'):
+                rep.fail('C17.CODEC', f'{rel.split("/")[-1]}:{norm(c)[:40]} (text layer)', f'`{norm(c)}` reads CHARACTERS the locale codec decoded from the input '
+                         f'bytes; what is re-encoded is not the byte string that was typed / piped for any byte >= 0x80', f'{rel}:{c.lineno}',
+                         expected='stdin.buffer.read(1) (bytes), or a text stream opened with IO_BYTES_ENCODING')
     for rel, cls in PACKERS:
         fn = repo.func(rel, f'{cls}.write_bit')
         outs = method_outcomes(repo, rel, cls, 'write_bit')
